@@ -442,10 +442,12 @@ async def reuse_case(loop, case, out, stats, fps):
             job = Job("echo", id_=f"r{i}", args=args, args_id=aid, result_id="res-" + aid, use_args_bucketer=True, store_result=True, _connection=w.conn)
             await job.enqueue()
             sent.append((job, args))
-            for _ in range(100):
-                if len(seen) > i:
+            for _ in range(200):
+                # the result is stored before the message is disposed of: read it only after the ack was issued
+                if len(seen) > i and w.dispositions(f"r{i}"):
                     break
                 await asyncio.sleep(0.05)
+            await asyncio.sleep(0.05)
             res = await job.result
             stats["items_judged"] += 1
             stats["jobs_roundtripped"] += 1
